@@ -126,6 +126,14 @@ def collections(n: int):
         yield "range-var", {"form": "range", "a": "lo", "b": "hi"}, {"lo": 2, "hi": 1 + ln}, False, False
         yield "str", {"form": "var", "name": "s"}, {"s": "abcdefgh"[:ln]}, False, False
         yield "str-seq", {"form": "var", "name": "s"}, {"s": "abcdefgh"[:ln]}, False, True
+    # range bounds that are not numbers: each counts as 0 on its own; numeric strings and floats are converted
+    yield "range-undef-lo", {"form": "range", "a": "nolo", "b": "hi"}, {"hi": 3}, False, False
+    yield "range-undef-hi", {"form": "range", "a": "lo", "b": "nohi"}, {"lo": 2}, False, False
+    yield "range-neg-undef-hi", {"form": "range", "a": "lo", "b": "nohi"}, {"lo": -2}, False, False
+    yield "range-nil-lo", {"form": "range", "a": "lo", "b": "hi"}, {"lo": None, "hi": 2}, False, False
+    yield "range-str-bounds", {"form": "range", "a": "lo", "b": "hi"}, {"lo": "2", "hi": "4"}, False, False
+    yield "range-word-lo", {"form": "range", "a": "lo", "b": "hi"}, {"lo": "x", "hi": 2}, False, False
+    yield "range-float-hi", {"form": "range", "a": "lo", "b": "hi"}, {"lo": 1, "hi": 3.0}, False, False
     yield "nil", {"form": "var", "name": "z"}, {"z": None}, False, False
     yield "int", {"form": "var", "name": "z"}, {"z": 7}, False, False
     yield "undefined", {"form": "var", "name": "nope"}, {}, False, False
@@ -158,7 +166,7 @@ def grid(n: int, rng, sample: float):
                 lp["wrap"] = rng.choice([None, "if", "unless", "case", "for1", "else", "capture"])
             yield {"loops": [lp], "data": V.enc(data), "ss": ss, "async": rng.random() < 0.1}
         # tablerow: every cols value
-        for cols, lim, off in itertools.product([None] + list(range(1, ln + 3)), [None, 0, 1, ln, ln + 2, -1], [None, 0, 1, ln + 1, -2]):
+        for cols, lim, off in itertools.product([None] + list(range(1, ln + 3)) + [0, -1, -3], [None, 0, 1, ln, ln + 2, -1], [None, 0, 1, ln + 1, -2]):
             if sample < 1 and rng.random() > sample * 2:
                 continue
             lp = {"tag": "tablerow", "var": "i", "coll": coll, "pairs": pairs}
@@ -174,8 +182,8 @@ def grid(n: int, rng, sample: float):
 def _value(coll, data):
     if coll["form"] == "var":
         return data.get(coll["name"])
-    a = data.get(coll["a"]) if isinstance(coll["a"], str) else coll["a"]
-    b = data.get(coll["b"]) if isinstance(coll["b"], str) else coll["b"]
+    a = M.range_bound(data.get(coll["a"]) if isinstance(coll["a"], str) else coll["a"])
+    b = M.range_bound(data.get(coll["b"]) if isinstance(coll["b"], str) else coll["b"])
     return range(a, b + 1) if a <= b else range(0)
 
 
